@@ -1,7 +1,7 @@
 (* C13 — Generic header parameter rules are enforced identically on encode and decode.
    Statements only (copied from coq/theories by bin/mkprops); each proof is `exact <lemma>`. *)
 From Coq Require Import Ascii String ZArith List Bool Permutation.
-From GoCose Require Import Bytes Cbor CborProofs Res GoVal Obs Ecdsa EcdsaProofs Fx Headers Enc Dec Msg HashEnv Key SigVer Run TbsProofs FlowProofs DecProofs KeyProofs HdrProofs EncProofs EncCanon NoPanic Effects MoreProofs KeyCbor EncDec HdrRoundTrip WireLeg.
+From GoCose Require Import Bytes Cbor CborProofs Res GoVal Obs Ecdsa EcdsaProofs Fx Headers Enc Dec Msg HashEnv Key SigVer Run TbsProofs FlowProofs DecProofs KeyProofs HdrProofs EncProofs EncCanon NoPanic Effects MoreProofs KeyCbor EncDec HdrRoundTrip WireLeg RulesTie.
 From GoCose.Gen Require Import Generated.
 Import ListNotations.
 Open Scope Z_scope.
@@ -106,6 +106,13 @@ Theorem C13_respelled_example :
   validate_params [GInt KInt8 4; GBytes [1]; GInt KUint16 2; GArr [GInt KInt64 4]] true = true.
 Proof. exact respelled_example. Qed.
 Print Assumptions C13_respelled_example.
+
+(* the per-label switch of validateHeaderParameters as translated from /repo on this run prescribes exactly the model's rule for every label, bucket and value *)
+Theorem C13_translated_rules_agree :
+  forall prot h label value,
+  check_param_tbl tbl_header_rules prot h label value = check_param prot h label value.
+Proof. exact translated_rules_agree. Qed.
+Print Assumptions C13_translated_rules_agree.
 
 (* a header set accepted on the encode side is accepted on the decode side: the RFC 9052 3.1 rules that hold for a bucket hold for the bucket rebuilt from its encoding (labels normalised, integer kinds widened, entries in any order) *)
 Theorem C13_validate_params_transport :
